@@ -1261,13 +1261,18 @@ class Workflow(Trellis):
         for i, path in action_lists["completed"]:
             self.mark_consuming_steps_pending(File(self, i, path))
 
-    def get_file_hashes(self, paths: Collection[str]) -> dict[str, FileHash]:
+    def get_file_hashes(
+        self, paths: Collection[str], *, rescannable: bool = False
+    ) -> dict[str, FileHash]:
         """Get the hashes of existing files.
 
         Parameters
         ----------
         paths
             A list of paths.
+        rescannable
+            When True, only include the files that `startup.rescan_files()` would check:
+            not detached and neither PLANNED nor VOLATILE.
 
         Returns
         -------
@@ -1292,8 +1297,13 @@ class Workflow(Trellis):
             "SELECT node.label, file.hash FROM node "
             "JOIN file ON file.node = node.i "
             "WHERE node.kind = 'file' AND node.label IN (SELECT path FROM path_list) "
-            "ORDER BY node.label"
         )
+        if rescannable:
+            sql += (
+                "AND NOT node.detached "
+                f"AND file.state NOT IN ({FileState.PLANNED.value}, {FileState.VOLATILE.value}) "
+            )
+        sql += "ORDER BY node.label"
         return {path: FileHash.from_json(hash_value) for path, hash_value in db.execute(sql)}
 
     def handle_updated_file(self, file: File):
